@@ -29,9 +29,9 @@ func sliceText(parts [3]*int64, shortForm bool) string {
 func checkC08(r *harness.Run) harness.Coverage {
 	r.Rule = "array lengths 0..L x (start, stop, step) in ({absent} U [-L-3, L+3])^3, plus boundary values {+-1,+-2,+-2^31,+-(2^63-1),-2^63} in each position crossed with a small window in the others; as [a:b:c] on the array, as x[a:b:c] on {\"x\": array}, on a typed []string twin (reflection path), on non-array subjects of every JSON type; 20-digit numerals (gap G2: error or Python semantics, never a panic). Oracle: CPython slice arithmetic (model.SliceIndices). Non-trivial = reference outcome non-null (incl. non-empty selection) or error; distinct by (expression, document)"
 	r.Assumptions = []string{"reference: CPython PySlice_AdjustIndices transcription in model/eval.go", "lengths bounded by L; magnitudes covered by the boundary set"}
-	L := 4
+	L := 12
 	if r.Thorough() {
-		L = 7
+		L = 24
 	}
 	var vals []*int64
 	vals = append(vals, nil)
